@@ -17,6 +17,7 @@ pub fn run(ctx: &Ctx) -> Report {
     };
     let r = commis::run_world(&p);
     rep.evaluations += 1;
+    rep.max_samples = 50;
     for l in &r.log {
         rep.sample(json!({"i": l.index, "step": format!("{:?}", l.step), "out": l.out, "t": l.t, "kv": l.kv_ops,
             "fabrics": l.dev.fabrics.keys().collect::<Vec<_>>(), "failsafe": format!("{:?}", l.dev.failsafe), "nets": l.dev.networks.len(),
